@@ -39,7 +39,7 @@ def warmup():
     pipeline.execute_c08b(pipeline.gen_plan_c08b(0, 'warm', 3))
 
 
-LAYER_B_EVERY = 16      # every 16th plan is a whole-parse_folder (pfworld) plan
+LAYER_B_EVERY = 8       # every 8th plan is a whole-parse_folder (pfworld) plan
 
 
 def gen_plan(seed, tier, index):
